@@ -4,7 +4,7 @@ import os
 import time
 
 from . import common as C
-from . import e1, e2, e3, e4, e5, srcscan
+from . import e1, e2, e3, e4, e5, e6, srcscan
 
 TRUSTED = [
     "Coq 8.16.1 kernel (coqc; vm_compute used for Example/refutation witnesses and for case evaluation; no native_compute)",
@@ -34,7 +34,8 @@ TABLE = {
     "C14": {"props": "C14.v", "engines": ["e2", "e5"]},
     "C15": {"props": "C15.v", "engines": ["e2", "e3"]},
     "C16": {"props": "C16.v", "engines": ["e2", "e3"]},
-    "C18": {"props": "C18.v", "engines": ["e1"], "oracle": ["C18"], "components": ["step"]},
+    "C17": {"props": "C17.v", "engines": ["e6"]},
+    "C18": {"props": "C18.v", "engines": ["e1", "e6"], "oracle": ["C18"], "components": ["step"]},
     "C19": {"props": "C19.v", "engines": ["e1", "e2"], "oracle": ["C19"], "components": ["step"], "level": "other"},
     "C20": {"props": "C20.v", "engines": ["e1"], "oracle": ["C20"], "components": ["convert"]},
 }
@@ -189,7 +190,32 @@ def engine_e5(prop, cfg, tier, seed):
     return {"hits": hits, "broken": [], "info": info, "search": None, "first_diff": None}
 
 
-ENGINES = {"e1": engine_e1, "e2": engine_e2, "e3": engine_e3, "e4": engine_e4, "e5": engine_e5}
+E6_RULE = ("types: the leaves (16 primitives, (), String, 3 user types) + PRNG(seed) grammar growth to nesting depth 3 over Box, Vec, Option, "
+           "Result, tuples of 1-3, arrays, Box<[T]>, Box<str>, generic user types of two crates' paths; per type: recorded name vs the extracted model, "
+           "4 spellings (short, re-spaced, compact, the compiler's) looked up in a table before and after a JSON round trip, typed lookup, host resolver, "
+           "rustc identity probe `fn(T) -> <recorded name>`; distinct = distinct Rust type")
+
+
+def engine_e6(prop, cfg, tier, seed):
+    res = e6.run_e6(tier, seed)
+    C.log("E6: %s%s" % (json.dumps(res["counts"]), " (cached run)" if res.get("cached") else ""))
+    hits = [{"input": {"type": o["type"]}, "what": o["what"], "key": "type=" + o["type"].replace(" ", ""),
+             "found_by": "type-name / type-table oracle on the implementation's own answers (E6)"}
+            for o in res["oracle"] if o["property"] == prop]
+    broken, first = [], None
+    if res["diffs"] and prop == "C17":
+        d = res["diffs"][0]
+        broken.append("correspondence E6 (type-name model vs truc_type_name) differs for `%s`: implementation `%s`, model `%s`" % (
+            d["type"], d["implementation"], d["model"]))
+        first = d
+    info = {"evaluations": res["counts"].get("types", 0) * (6 if prop == "C17" else 10) + (res["counts"].get("std_table_entries_checked", 0) if prop == "C18" else 0),
+            "distinct": res["counts"].get("types", 0), "rule": E6_RULE, "samples": res.get("samples", [])[:4],
+            "counts": dict(res["counts"], by_depth=res.get("by_depth", {})), "coq_cases": 0, "stats": {"by_depth": res.get("by_depth", {})},
+            "ndiffs": len(res["diffs"]) if prop == "C17" else 0}
+    return {"hits": hits, "broken": broken, "info": info, "search": None, "first_diff": first}
+
+
+ENGINES = {"e6": engine_e6, "e1": engine_e1, "e2": engine_e2, "e3": engine_e3, "e4": engine_e4, "e5": engine_e5}
 
 
 def run(prop, tier, seed, t0):
@@ -233,8 +259,10 @@ def run(prop, tier, seed, t0):
     elif broken:
         C.log("broken tie: %s\nsearching for a failing input..." % broken)
         found = []
+        proof_broken = not proof_ok
         for e, r in results:
-            if r["search"]:
+            # search where the tie broke: an engine whose own correspondence differs, or every engine when the proof itself broke
+            if r["search"] and (r["broken"] or proof_broken):
                 found += [h for h in r["search"]() if h["key"] not in known]
             if found:
                 break
